@@ -163,6 +163,16 @@ func collection(v any) []any {
 	return nil
 }
 
+// isScalar returns true if v is neither an object nor an array. An empty
+// array or object is not a scalar, even when it is a nil slice or map.
+func isScalar(v any) bool {
+	switch v.(type) {
+	case map[string]any, []any:
+		return false
+	}
+	return true
+}
+
 // executeAnyItem is the implementation of several jsonpath nodes:
 //
 //   - ast.AnyNode (.** accessor)
@@ -203,7 +213,7 @@ func (exec *Executor) executeAnyItem(
 	for _, v := range value {
 		col := collection(v)
 
-		if level >= first || (first == math.MaxUint32 && last == math.MaxUint32 && col == nil) {
+		if level >= first || (first == math.MaxUint32 && last == math.MaxUint32 && isScalar(v)) {
 			// check expression
 			switch {
 			case node != nil:
